@@ -199,6 +199,96 @@ pub fn dispatch(a: &[String]) -> String {
       Ok(n) => n.to_string(),
       Err(e) => format!("ERR {}", e),
     },
+    "stress_feel" => {
+      // stress_feel <millis> <threads> <expr>...: every thread evaluates the expressions in a rotating order until the time is up;
+      // each result is compared with the result of the same expression evaluated alone beforehand
+      let millis: u64 = i(&a[1]);
+      let threads: usize = i(&a[2]);
+      let exprs: std::sync::Arc<Vec<String>> = std::sync::Arc::new(a[3..].to_vec());
+      let want: std::sync::Arc<Vec<String>> = std::sync::Arc::new(exprs.iter().map(|e| crate::feel_eval(None, e)).collect());
+      let deadline = std::time::Instant::now() + std::time::Duration::from_millis(millis);
+      let mut handles = vec![];
+      for t in 0..threads {
+        let (exprs, want) = (exprs.clone(), want.clone());
+        handles.push(std::thread::spawn(move || -> Result<u64, String> {
+          let (mut k, mut n) = (t, 0u64);
+          while std::time::Instant::now() < deadline {
+            let j = k % exprs.len();
+            let got = match std::panic::catch_unwind(|| crate::feel_eval(None, &exprs[j])) {
+              Ok(v) => v,
+              Err(_) => "PANIC".to_string(),
+            };
+            if got != want[j] {
+              return Err(format!("MISMATCH {} -> {} under contention, {} alone", exprs[j], got, want[j]));
+            }
+            k += 1;
+            n += 1;
+          }
+          Ok(n)
+        }));
+      }
+      let mut total = 0;
+      let mut bad = None;
+      for h in handles {
+        match h.join() {
+          Ok(Ok(n)) => total += n,
+          Ok(Err(e)) => bad = Some(e),
+          Err(_) => bad = Some("PANIC in a worker thread".to_string()),
+        }
+      }
+      bad.unwrap_or_else(|| format!("SAME {} evaluations", total))
+    }
+    "stress_model" => {
+      // stress_model <millis> <threads> <xml> (<invocable> <input context>)...: one shared evaluator, every thread evaluates the
+      // invocables in a rotating order; each result is compared with the result of the same call made alone beforehand
+      let millis: u64 = i(&a[1]);
+      let threads: usize = i(&a[2]);
+      let defs = match dmntk_model::parse(&a[3]) {
+        Ok(d) => d,
+        Err(e) => return format!("PARSE-ERROR {}", e),
+      };
+      let me = match dmntk_model_evaluator::ModelEvaluator::new(&defs) {
+        Ok(m) => m,
+        Err(e) => return format!("BUILD-ERROR {}", e),
+      };
+      let calls: std::sync::Arc<Vec<(String, String)>> = std::sync::Arc::new(a[4..].chunks(2).map(|c| (c[0].clone(), c[1].clone())).collect());
+      let eval = |me: &dmntk_model_evaluator::ModelEvaluator, c: &(String, String)| -> String {
+        let scope = dmntk_feel::Scope::default();
+        let input = dmntk_feel_evaluator::evaluate_context(&scope, &c.1).unwrap();
+        format!("{}", me.evaluate_invocable(&c.0, &input))
+      };
+      let want: std::sync::Arc<Vec<String>> = std::sync::Arc::new(calls.iter().map(|c| eval(&me, c)).collect());
+      let deadline = std::time::Instant::now() + std::time::Duration::from_millis(millis);
+      let (tx, rx) = std::sync::mpsc::channel::<Result<u64, String>>();
+      for t in 0..threads {
+        let (calls, want, me, tx) = (calls.clone(), want.clone(), me.clone(), tx.clone());
+        std::thread::spawn(move || {
+          let (mut k, mut n) = (t, 0u64);
+          while std::time::Instant::now() < deadline {
+            let j = k % calls.len();
+            let got = eval(&me, &calls[j]);
+            if got != want[j] {
+              let _ = tx.send(Err(format!("MISMATCH {}({}) -> {} under contention, {} alone", calls[j].0, calls[j].1, got, want[j])));
+              return;
+            }
+            k += 1;
+            n += 1;
+          }
+          let _ = tx.send(Ok(n));
+        });
+      }
+      drop(tx);
+      // a watchdog instead of join: a deadlocked worker never reports
+      let mut total = 0;
+      for _ in 0..threads {
+        match rx.recv_timeout(std::time::Duration::from_millis(millis + 5000)) {
+          Ok(Ok(n)) => total += n,
+          Ok(Err(e)) => return e,
+          Err(_) => return "DEADLOCK a worker did not finish within 5 s after the deadline".to_string(),
+        }
+      }
+      format!("SAME {} evaluations", total)
+    }
     "model_eval" => {
       // model_eval <xml> <invocable> <input context>: load, build, evaluate (panics are caught by the caller)
       match dmntk_model::parse(&a[1]) {
